@@ -502,8 +502,9 @@ def run(tier: str) -> int:
     t1 = time.time()
     n_or = 0
     for (l, nt, tag), im in zip(cases, impl):
-        if im.startswith("harness-bug"):
-            raise core.Infra(f"ill-formed term generated: {l[:200]} -> {im}")
+        # a realised term that does not read back as the term (on the unchanged tree this never happens — every clean run
+        # checks it): the implementation's doing, e.g. a name or text that depends on earlier calls; it is kept as the
+        # implementation's answer, which no model answer equals
         ck.add(l, im, nontrivial=nt, tag=tag)
         if l.startswith("document_render "):
             bad = oracle(l, im)
